@@ -110,7 +110,7 @@ def check(ctx):
                 elif c == "Primitive":
                     prim = None
                     for x in conds:
-                        m = re.search(r'type_name matches "(\w+)"', x)
+                        m = re.search(r'\w+ matches "(\w+)"', x)
                         if m:
                             prim = m.group(1)
                     img = {"string": r"^z\.string\(\)", "number": r"^z\.(coerce\.)?number\(\)", "boolean": r"^z\.(coerce\.)?boolean\(\)", "void": r"^z\.void\(\)$"}
@@ -138,7 +138,7 @@ def check(ctx):
         if c == "Custom" and not any("mappings" in x and "not(" not in x for x in conds[-1:]):
             pass
     cust = [render(sv) for conds, sv in ev.fn_paths(zres("visit_type"), None, zres) if constructor_of(conds) == "Custom"]
-    if "‹name›Schema" in cust:
+    if any(re.fullmatch(r"‹\w+›Schema", x) for x in cust):
         r1.ok("ZodVisitor: unmapped custom type -> {name}Schema")
     else:
         r1.bad(V(r1.id, "ZodVisitor::visit_custom", "custom-reference:%s" % "|".join(sorted(set(cust))), "an unmapped custom type is not rendered as {name}Schema: %s" % cust))
@@ -150,7 +150,7 @@ def check(ctx):
     else:
         ps = ev.fn_paths(ge[0])
         txt = render(ps[0][1]) if ps else ""
-        if re.match(r"^export const ‹name›Schema = z\.enum\(\[", txt) and txt.rstrip().endswith("]);"):
+        if re.match(r"^export const ‹\w+›Schema = z\.enum\(\[", txt) and txt.rstrip().endswith("]);"):
             r1.ok("enum -> %s" % txt.strip()[:80])
         else:
             r1.bad(V(r1.id, "ZodBindingsGenerator::generate_enum_schema", "enum-shape:%s" % txt.strip()[:60], "enums are rendered as %s, not as z.enum([literals])" % txt.strip()[:80]))
